@@ -21,7 +21,7 @@ from ..tok import S
 PID = "C18"
 COQ_HEADER = ("From Coq Require Import List NArith ZArith.\nFrom SK Require Import lib.Tok model.C18_Model.\n"
               "Import ListNotations.\n")
-SHARD = 24
+SHARD = 60
 IMPL_TIMEOUT = 1500
 COQ_TIMEOUT = 1500
 RULE = ("reaction networks in both views (bipartite with / without stoichiometry, species graph) together with declared "
